@@ -197,6 +197,11 @@ def judge_history(case, obs, tag, stats=None):
                         and ch[1] == ff.starts[ff.bases.index(lc[2])] + 65536:
                     wrap = ':end-of-65536-block'
                 bad.append(('%s:%s:lastchunk%s' % (tag, cls, wrap), 'op %d %s: LastChunk %s translates to (%s, %s), the read covered (%d, %d)' % (k, op, lc, tb, te, ch[0], ch[1]), dict(chunk=ch)))
+                if wrap and not any(b[0].endswith(wrap) for b in bad[:-1]):
+                    continue        # only End is wrong (recorded finding): bytes and errors of the rest are still judged
+                if wrap:
+                    bad.pop()       # one report of the wrap per history
+                    continue
                 break
         elif name == 'blocked':
             fr.blocked = bool(op[1])
